@@ -677,6 +677,32 @@ Proof.
     cbn [all2 failure_eqb length]. rewrite L, N.eqb_refl. reflexivity.
 Qed.
 
+Lemma pub_step_some : forall W k c t,
+  pc_quit c = false -> nth_error W k = Some t ->
+  pub_step W k c = (mkres (ORet (t_err t))
+                      (if negb (list_eqb (pc_msg c) (t_msg t)) || negb (list_eqb (pc_topic c) (t_topic t))
+                       then [FMismatch] else []), S k).
+Proof. intros W k c t Q E. unfold pub_step. rewrite Q, E. reflexivity. Qed.
+
+Lemma pub_step_none : forall W k c,
+  pc_quit c = false -> nth_error W k = None ->
+  pub_step W k c = (mkres (ORet CNil) [FUnwanted], S k).
+Proof. intros W k c Q E. unfold pub_step. rewrite Q, E. reflexivity. Qed.
+
+Lemma sub_step_some : forall W k c f,
+  sc_filters c <> [] -> sc_quit c = false -> nth_error W k = Some f ->
+  sub_step W k c = (mkres (ORet (f_err f)) (sub_fails (f_topics f) (sc_filters c)), S k).
+Proof.
+  intros W k c f N Q E. unfold sub_step. destruct (sc_filters c); [contradiction|]. rewrite Q, E. reflexivity.
+Qed.
+
+Lemma sub_step_none : forall W k c,
+  sc_filters c <> [] -> sc_quit c = false -> nth_error W k = None ->
+  sub_step W k c = (mkres (ORet CNil) [FUnwanted], S k).
+Proof.
+  intros W k c N Q E. unfold sub_step. destruct (sc_filters c); [contradiction|]. rewrite Q, E. reflexivity.
+Qed.
+
 Lemma pub_sound_aux : forall calls W idx sur,
   ((length W < idx)%nat -> sur = true) ->
   exists sur',
@@ -691,9 +717,9 @@ Proof.
       destruct (IH W idx sur Hs) as (sur' & I1 & I2).
       destruct (run_calls (pub_step W) idx r) as [rs fin]. cbn [fst snd] in *.
       exists sur'. split; [|assumption]. cbn [pub_ok_calls]. rewrite Q. cbn. assumption.
-    + unfold pub_step at 1 2 3. rewrite Q. rewrite (nth_error_skipn W idx).
+    + rewrite (nth_error_skipn W idx).
       destruct (nth_error W idx) as [t|] eqn:En.
-      * cbn [cr_out].
+      * rewrite (pub_step_some W idx a t Q En). cbn [cr_out].
         assert (Hs' : (length W < S idx)%nat -> sur = true).
         { intros L. assert (idx < length W)%nat by (apply nth_error_Some; congruence). lia. }
         destruct (IH W (S idx) sur Hs') as (sur' & I1 & I2).
@@ -703,7 +729,7 @@ Proof.
         replace (Bool.eqb _ _) with true; [assumption|].
         unfold no_fail. cbn [cr_fails].
         destruct (list_eqb (pc_msg a) (t_msg t)), (list_eqb (pc_topic a) (t_topic t)); reflexivity.
-      * cbn [cr_out].
+      * rewrite (pub_step_none W idx a Q En). cbn [cr_out].
         destruct (IH W (S idx) true (fun _ => eq_refl)) as (sur' & I1 & I2).
         rewrite (nth_error_skipn_nil W idx En) in I1.
         destruct (run_calls (pub_step W) (S idx) r) as [rs fin]. cbn [fst snd] in *.
@@ -738,9 +764,9 @@ Proof.
       destruct (IH W idx sur Hs) as (sur' & I1 & I2).
       destruct (run_calls (sub_step W) idx r) as [rs fin]. cbn [fst snd] in *.
       exists sur'. split; [|assumption]. cbn [sub_ok_calls]. rewrite Ef, Q. cbn. assumption.
-    + unfold sub_step at 1 2 3. rewrite Ef, Q. rewrite (nth_error_skipn W idx).
+    + rewrite (nth_error_skipn W idx).
       destruct (nth_error W idx) as [f|] eqn:En.
-      * cbn [cr_out].
+      * rewrite (sub_step_some W idx a f Hne Q En). cbn [cr_out].
         assert (Hs' : (length W < S idx)%nat -> sur = true).
         { intros L. assert (idx < length W)%nat by (apply nth_error_Some; congruence). lia. }
         destruct (IH W (S idx) sur Hs') as (sur' & I1 & I2).
@@ -748,7 +774,7 @@ Proof.
         exists sur'. split; [|assumption]. cbn [sub_ok_calls]. rewrite Ef, Q. cbn [cr_out cr_fails].
         cbn [outcome_eqb]. rewrite errclass_eqb_refl. cbn [andb].
         unfold no_fail. cbn [cr_fails]. rewrite sub_fails_bool, eqb_reflx. assumption.
-      * cbn [cr_out].
+      * rewrite (sub_step_none W idx a Hne Q En). cbn [cr_out].
         destruct (IH W (S idx) true (fun _ => eq_refl)) as (sur' & I1 & I2).
         rewrite (nth_error_skipn_nil W idx En) in I1.
         destruct (run_calls (sub_step W) (S idx) r) as [rs fin]. cbn [fst snd] in *.
@@ -811,9 +837,10 @@ Proof.
   intros ef s. unfold c20_ok. cbn [nonempty forallb andb]. rewrite andb_true_r.
   unfold exch_stub. pose proof (script_accepted_wellformed ef s) as Hw.
   destruct (script_accepted ef s) eqn:Ha.
-  - destruct ef; cbn [exch_obs_of exch_obs_ok]; rewrite <- Hw; try (rewrite errclass_eqb_refl; reflexivity).
-    cbn in Ha. rewrite (exch_go_spec s Ha). cbn [exch_obs_of exch_obs_ok].
-    rewrite all2_errclass_refl. destruct (ends_open s); reflexivity.
+  - destruct ef.
+    1: { cbn in Ha. rewrite (exch_go_spec s Ha). cbn [exch_obs_of exch_obs_ok]. rewrite <- Hw.
+         rewrite all2_errclass_refl. destruct (ends_open s); reflexivity. }
+    all: cbn [exch_obs_of exch_obs_ok]; rewrite <- Hw; rewrite errclass_eqb_refl; reflexivity.
   - cbn [exch_obs_of exch_obs_ok]. rewrite <- Hw. reflexivity.
 Qed.
 
